@@ -216,8 +216,8 @@ Proof.
 Qed.
 
 (* a job continued with narrower hills, another weight and frequency: with grids (w_cfg) and without (v_cfg) *)
-Definition p_w : @params R := mkPar [1/2] 1 3 1%Z 2%Z true 1000.
-Definition p_v : @params R := mkPar [1/2; 1/2; 1/2] 1 2 2%Z 2%Z false 300.
+Definition p_w : @params R := mkPar [1/2] 1 3 1%Z 2%Z true 1000 false.
+Definition p_v : @params R := mkPar [1/2; 1/2; 1/2] 1 2 2%Z 2%Z false 300 true.
 
 Lemma reconf_example :
   cfg_ok w_cfg /\ history_ok w_cfg [EStep w_i1; EReconf p_w; EStep w_i2] /\
